@@ -186,3 +186,14 @@ impl<'de, T: Copy + Default> serde::Deserialize<'de> for Array2<T> { fn deserial
 pub mod parallel { pub mod prelude { pub use crate::verif_models::rayon::prelude::*; } }
 unsafe impl<'a, T: Sync, D> Send for ArrayView<'a, T, D> {}
 unsafe impl<'a, T: Sync, D> Sync for ArrayView<'a, T, D> {}
+
+impl<T: Copy + Default> Array2<T> {
+    /// `select(Axis(a), indices)`: the sub-array of the listed rows (a = 0) or columns (a = 1), in the listed order
+    pub fn select(&self, a: Axis, idx: &[usize]) -> Array2<T> {
+        let mut out = if a.0 == 0 { Array2::zeros((0, self.c)) } else { Array2::zeros((self.r, 0)) };
+        for &i in idx {
+            if a.0 == 0 { out.push_row(self.index_axis(Axis(0), i)).unwrap(); } else { out.push_column(self.index_axis(Axis(1), i)).unwrap(); }
+        }
+        out
+    }
+}
